@@ -31,7 +31,7 @@ pub fn eval(line: &str) -> String {
 }
 
 fn leaves() -> Vec<String> {
-    vec!["n".into(), "#31".into(), "$61".into(), "{ }".into(), "{ $61 n }".into(), "{ $61 n $62 #31 }".into(), "{ $62 #31 $61 n }".into(), "[ n ]".into()]
+    vec!["n".into(), "#31".into(), "$61".into(), "{ }".into(), "[ ]".into(), "{ $61 n }".into(), "{ $61 n $62 #31 }".into(), "{ $62 #31 $61 n }".into(), "[ n ]".into()]
 }
 
 fn permutations(n: usize) -> Vec<Vec<usize>> {
@@ -105,6 +105,49 @@ fn mutate_value(r: &mut Rng, v: &Value) -> Value {
     }
 }
 
+
+/// Replaces one node (chosen at random, at any depth) by a value of ANOTHER kind that resembles
+/// it: empty array <-> empty object, a string <-> the one-element array of it, a number <-> its
+/// spelling as a string, null <-> false, true <-> "true", an object <-> the array of its values.
+/// Unordered equality must tell kinds apart everywhere.
+fn kind_swap(r: &mut Rng, v: &Value) -> Value {
+    let descend = match v {
+        Value::Array(a) => !a.is_empty() && r.chance(2, 3),
+        Value::Object(o) => !o.is_empty() && r.chance(2, 3),
+        _ => false,
+    };
+    if descend {
+        match v {
+            Value::Array(a) => {
+                let i = r.below(a.len());
+                let mut b = a.clone();
+                b[i] = kind_swap(r, &a[i]);
+                return Value::Array(b);
+            }
+            Value::Object(o) => {
+                let i = r.below(o.len());
+                let mut es: Vec<json_syntax::object::Entry> = o.iter().cloned().collect();
+                es[i].value = kind_swap(r, &es[i].value);
+                return Value::Object(json_syntax::Object::from_vec(es));
+            }
+            _ => unreachable!(),
+        }
+    }
+    match v {
+        Value::Array(a) if a.is_empty() => Value::Object(json_syntax::Object::new()),
+        Value::Object(o) if o.is_empty() => Value::Array(vec![]),
+        Value::Array(a) => Value::Object(json_syntax::Object::from_vec(
+            a.iter().enumerate().map(|(i, x)| json_syntax::object::Entry::new(i.to_string().as_str().into(), x.clone())).collect(),
+        )),
+        Value::Object(o) => Value::Array(o.iter().map(|e| e.value.clone()).collect()),
+        Value::String(s) => Value::Array(vec![Value::String(s.clone())]),
+        Value::Number(n) => Value::String(n.as_str().into()),
+        Value::Null => Value::Boolean(false),
+        Value::Boolean(true) => Value::String("true".into()),
+        Value::Boolean(false) => Value::Null,
+    }
+}
+
 pub fn generate(args: &Args, out: &mut Out) {
     let mut rng = Rng::new(args.seed);
     let full = args.thorough();
@@ -128,6 +171,15 @@ pub fn generate(args: &Args, out: &mut Out) {
         }
         objs.extend(next.iter().cloned());
         frontier = next;
+    }
+    // every pair of small scalar-or-empty values of any kinds, bare and one level down
+    let tiny = ["n", "t", "f", "#30", "$-", "$30", "[ ]", "{ }", "[ [ ] ]", "[ { } ]", "{ $- [ ] }", "{ $- { } }"];
+    for a in tiny {
+        for b in tiny {
+            out.case(|| format!("u | {a} | {b}"));
+            out.case(|| format!("u | [ {a} n ] | [ {b} n ]"));
+            out.case(|| format!("u | {{ $6b {a} $6a t }} | {{ $6a t $6b {b} }}"));
+        }
     }
     // every pair of equal length (different lengths are trivially unequal: sample those)
     for a in &objs {
@@ -159,5 +211,7 @@ pub fn generate(args: &Args, out: &mut Out) {
         out.case_str(&format!("u | {} | {}", s, value_str(&sh)));
         let m = mutate_value(&mut r, &sh);
         out.case_str(&format!("u | {} | {}", s, value_str(&m)));
+        let k = kind_swap(&mut r, &sh);
+        out.case_str(&format!("u | {} | {}", s, value_str(&k)));
     }
 }
